@@ -3,6 +3,7 @@ package otto
 import (
 	"encoding/json"
 	"reflect"
+	"strings"
 	"unicode"
 	"unicode/utf8"
 )
@@ -72,10 +73,18 @@ func (o goStructObject) method(name string) (reflect.Method, bool) { //nolint:un
 
 func (o goStructObject) setValue(rt *runtime, name string, value Value) bool {
 	if idx := fieldIndexByName(reflect.Indirect(o.value).Type(), name); len(idx) == 0 {
-		return false
+		// fieldIndexByName does not follow embedded pointers: a field promoted
+		// through one is read by its Go name (see getValue) and is written the same way.
+		field, ok := reflect.Indirect(o.value).Type().FieldByName(name)
+		if !ok || len(field.Index) < 2 || !validGoStructName(name) || strings.SplitN(field.Tag.Get("json"), ",", 2)[0] == "-" {
+			return false
+		}
 	}
 
 	fieldValue := o.getValue(name)
+	if !fieldValue.IsValid() {
+		return false
+	}
 	if !fieldValue.CanSet() {
 		panic(rt.panicTypeError("Object.setValue: field %s of a struct passed by value is not addressable (pass a pointer)", name))
 	}
